@@ -49,13 +49,13 @@ package util
 //@   props C07 C12
 //@   modifies heap(alloc), ghost fs.seq, ghost fs.appends, ghost fs.last_append_opened, ghost eff.fs
 //@   ensures [C07 opened_for_append] fs.appends == old(fs.appends) + 1 && fs.last_append_opened == file && fs.seq == old(fs.seq) + 1
-//@   ensures err == nil ==> f != nil
+//@   ensures [C12 opened_file_has_the_given_name] err == nil ==> (f != nil && !wasAllocated(f) && file_name(f) == file)
 
 //@ fn createFile(file) (f, err)
 //@   props C07 C12
 //@   modifies heap(alloc), ghost fs.seq, ghost fs.creates, ghost fs.last_created, ghost eff.fs
 //@   ensures fs.creates == old(fs.creates) + 1 && fs.last_created == file && fs.seq == old(fs.seq) + 1
-//@   ensures err == nil ==> f != nil
+//@   ensures [C12 opened_file_has_the_given_name] err == nil ==> (f != nil && !wasAllocated(f) && file_name(f) == file)
 
 //@ fn OpenOrCreateFile(file) (f, err)
 //@   props C07 C12
@@ -65,7 +65,7 @@ package util
 //@   ensures [C07 existing_file_is_appended_to_never_truncated] obs.exists ==>
 //@        (fs.creates == old(fs.creates) && fs.appends == old(fs.appends) + 1 && fs.last_append_opened == file)
 //@   ensures [C07 missing_file_is_created] !obs.exists ==> (fs.creates == old(fs.creates) + 1 && fs.last_created == file && fs.appends == old(fs.appends))
-//@   ensures err == nil ==> f != nil
+//@   ensures [C12 opened_file_has_the_given_name] err == nil ==> (f != nil && !wasAllocated(f) && file_name(f) == file)
 
 //@ ufunc trunc_string(s string, n int) string
 //@ ufunc valid_filename(s string) string
